@@ -31,6 +31,23 @@ theorem crc8_config :
     (crc8Width, crc8Feed, crc8ReverseInput, crc8ReverseOutput, crc8TableBased)
       = (8, 8, false, false, true) := by decide
 
+/-- the two column-wise arrangements are those of ETSI TS 102 361-1 B.2.1 (embedded LC, 8 × 16) and B.2.2 (CACH short
+LC, 4 × 17), written out here independently of `/repo`: cell (row, col) — rows counted from 1 as in the library's
+table — is transmitted at `col · R + (row − 1)`; the row code occupies the last five columns of every row but the
+last (the column parity row); the 5-bit checksum sits in column 10 of rows 3..7, the CRC-8 in columns 4..11 of
+row 3.  Self-consistency (everything else in this file) holds for any consistent arrangement; that the
+arrangement is the standard's is this fact.  (`VBPTC(32,11)` has no independent transcription here.) -/
+theorem tables_etsi :
+    vbptc12873.ii = (List.range 128).map (fun k =>
+      ⟨k, (k % 16) * 8 + k / 16, k / 16 + 1, k % 16,
+       decide (k / 16 + 1 ≤ 7) && decide (11 ≤ k % 16),
+       decide (3 ≤ k / 16 + 1) && decide (k / 16 + 1 ≤ 7) && decide (k % 16 = 10)⟩)
+    ∧ vbptc6828.ii = (List.range 68).map (fun k =>
+      ⟨k, (k % 17) * 4 + k / 17, k / 17 + 1, k % 17,
+       decide (k / 17 + 1 ≤ 3) && decide (12 ≤ k % 17),
+       decide (k / 17 + 1 = 3) && decide (4 ≤ k % 17) && decide (k % 17 ≤ 11)⟩) := by
+  decide +kernel
+
 /-- no loop of the three classes indexes outside its arrays (no `IndexError`, no negative row) -/
 theorem tables_in_range : [v128, v68, v32].all VCode.inRange = true := by decide +kernel
 
